@@ -298,7 +298,7 @@ def find_closure(path, fn_selector, k):
     return Item("closure", "%s#%d" % (it.name, k), path, btoks, None, _line_of(src, btoks[0].start), _line_of(src, btoks[-1].end - 1), params + " " + text, params)
 
 
-def find_call_arg(path, fn_selector, callee, k):
+def find_call_arg(path, fn_selector, callee, k, argn=None):
     """the argument tokens of the k-th (1-based) call `callee(...)` inside the function selected by fn_selector
        (callee given as a token sequence such as `Vec::with_capacity`). Returned as an Item of kind 'expr'."""
     it = find_item(path, fn_selector)
@@ -316,6 +316,27 @@ def find_call_arg(path, fn_selector, callee, k):
         raise LostAnchor("call #%d of %s in %r not found in %s (%d calls)" % (k, callee, fn_selector, path, len(hits)))
     op, cl = hits[k - 1]
     atoks = toks[op + 1:cl]
+    if argn is not None:
+        # the argn-th (1-based) argument only: split at top-level commas
+        parts, cur, q = [], [], 0
+        while q < len(atoks):
+            t = atoks[q]
+            if t.kind == "punct" and t.text in "([{":
+                c2 = match_close(atoks, q)
+                cur.extend(atoks[q:c2 + 1])
+                q = c2 + 1
+                continue
+            if t.kind == "punct" and t.text == "," :
+                parts.append(cur)
+                cur = []
+            else:
+                cur.append(t)
+            q += 1
+        if any(x.kind not in ("ws", "lcomment", "bcomment") for x in cur):
+            parts.append(cur)
+        if argn < 1 or argn > len(parts):
+            raise LostAnchor("call #%d of %s in %r has %d arguments, argument %d wanted" % (k, callee, fn_selector, len(parts), argn))
+        atoks = parts[argn - 1]
     while atoks and atoks[0].kind == "ws":
         atoks = atoks[1:]
     while atoks and atoks[-1].kind == "ws":
